@@ -244,7 +244,12 @@ def detect_execute(case, stats):
         plain = None
         true_off = None
     must, may = ref_validating(raw)
-    r = lib(XorEncodedFile.from_file, io.BytesIO(raw), allow=(ValueError,), what="XorEncodedFile.from_file")
+    fobj = io.BytesIO(raw)
+    fobj.seek(len(raw) * (case.get("bad_size", 0) % 4) // 3 if case["kind"] == "stage" else len(raw) // 2)  # detection must not depend on the handle's position
+    r = lib(XorEncodedFile.from_file, fobj, allow=(ValueError,), what="XorEncodedFile.from_file")
+    # ... nor on having been run on the same handle before
+    r_again = lib(XorEncodedFile.from_file, fobj, allow=(ValueError,), what="XorEncodedFile.from_file (second call, same handle)")
+    check(isinstance(r, Raised) == isinstance(r_again, Raised) and (isinstance(r, Raised) or r.nonce_offset == r_again.nonce_offset), "detect:depends_on_history", lambda: f"second from_file() on the same handle: {r!r} then {r_again!r}")
     ctx = lambda: f"raw[:96]={raw[:96].hex()} len={len(raw)} true_offset={true_off} must={must} may={may} got={r!r}"
     if isinstance(r, Raised):
         check(not must, "detect:missed_stage", ctx)
